@@ -79,6 +79,13 @@ def fresh_iterator_rules(ctx):
         ctx.ob("C06.e", "find_iter-clones-own-inner", bool(ok), "FindMatches::new(%s)" % (", ".join(S.vstr(a) for a in c[0][3]) if c else ""), fi.loc())
         cl = [e for e in p.events if e[0] == "call" and re.search(r"ScannerImpl as std::clone::Clone>::clone$", e[2])]
         ctx.ob("C06.e", "find_iter-passes-a-clone", len(cl) == 1, "%d clone call(s) of ScannerImpl" % len(cl), fi.loc())
+        # ... and hands out the new iterator as it is: nothing is done to it afterwards (a mode, an offset or any other state of
+        # the Scanner re-applied to the fresh iterator makes it depend on the scanner's history — seed C12k)
+        others = [M.short_name(e[2]) for e in p.events if e[0] == "call" and (e[2].startswith(M.CRATE_ROOTS) or (e[2].startswith("<") and e[2][1:].startswith(M.CRATE_ROOTS)))
+                  and not re.search(r"FindMatches::<..>::new$|FindMatches::new$|ScannerImpl as std::clone::Clone>::clone$", e[2])]
+        same = len(c) == 1 and (p.end[1] == c[0][4] or S.vstr(p.end[1]) == S.vstr(c[0][4]))
+        ctx.ob("C06.e", "find_iter-hands-out-the-fresh-iterator-untouched", same and not others,
+               "returns %s; other calls of the crate in find_iter: %s" % (S.vstr(p.end[1])[:80], others), fi.loc())
 
 
 
